@@ -230,6 +230,53 @@ def gen_repair_case(rng):
             'seed': rng.next() % (2 ** 53), 'history': hist, 'observe': False, 'stream': 'repair'}
 
 
+
+def gen_long_tour_case(rng, tier='quick'):
+    """one vehicle, 28-40 pickup-delivery jobs on a line, every delivery closer to the depot than its pickup: ONE tour of
+    56-80 activities, so the insertion evaluator takes its SAMPLED leg search (LegSelection::Stochastic samples the legs once
+    16-32 (multi jobs) / 32-48 (singles) legs are left to visit; shorter tours are searched exhaustively) and the cheapest
+    place of a delivery is in front of its pickup - only the `skip` of the later parts of a multi job keeps the order.
+    A few singles in between; history = ruins with larger limits + recreates / RuinAndRecreate."""
+    pairs = rng.range(28, 40)
+    singles = rng.range(0, 4)
+    size = 2 * pairs + singles + 1
+    scale = rng.choice([1, 1, 2, 3])
+    dur = [scale * abs(i - j) for i in range(size) for j in range(size)]
+    dist = [2 * x for x in dur]
+    svc = rng.choice([0, 1, 1, 2])
+    jobs = []
+    for i in range(pairs):
+        q = rng.range(1, 2)
+        jobs.append({'id': i + 1, 'multi': [
+            {'places': [{'loc': pairs + i + 1, 'svc': svc, 'tws': [[0, 'inf']]}], 'dem': [0, q, 0, 0]},
+            {'places': [{'loc': i + 1, 'svc': svc, 'tws': [[0, 'inf']]}], 'dem': [0, 0, 0, q]}]})
+    for k in range(singles):
+        jobs.append({'id': pairs + k + 1, 'places': [{'loc': 2 * pairs + k + 1, 'svc': svc, 'tws': [[0, 'inf']]}],
+                     'dem': [0, 0, 1, 0]})
+    veh = {'start': 0, 'end': rng.choice([0, 0, None]), 'shift_start': 0, 'shift_latest': None, 'shift_end': 'inf',
+           'cap': 4 * pairs, 'costs': [10, 1, rng.range(0, 1), 0, 0]}
+    hist = []
+    for k in range(rng.range(3, 5) if tier == 'quick' else rng.range(5, 9)):
+        op = gen_op(rng, False)
+        a = rng.range(3, 6)
+        op['acts'] = [a, a + rng.range(2, 8)]
+        op['routes'] = [1, 2]
+        if k % 2 == 0:
+            op['op'] = 'ruin:' + rng.choice(['neigh', 'rjob', 'asr', 'cluster', 'wjob'])
+        else:
+            op['op'] = 'recreate:' + rng.choice(RECREATES)
+        if rng.chance(1, 4):
+            op['op'] = 'search:rr'
+        op.setdefault('ruin', rng.choice(['neigh', 'rjob', 'asr']))
+        op.setdefault('recreate', rng.choice(RECREATES))
+        op.setdefault('recovery', rng.choice(RECREATES))
+        op.setdefault('local', rng.choice(LOCALS))
+        op.setdefault('repeat', 1)
+        hist.append(op)
+    return {'n': size, 'dur': dur, 'dist': dist, 'vehicles': [veh], 'jobs': jobs, 'features': {}, 'locks': [], 'ignored': [],
+            'seed': rng.next() % (2 ** 53), 'history': hist, 'observe': False, 'stream': 'long_tour'}
+
+
 def gen_case(rng, tier='quick', metric=None, observe=False):
     if metric is None and rng.chance(1, 4):
         return gen_fleet_case(rng, tier, observe)
